@@ -53,6 +53,20 @@ def batch(rng, tier):
         progs.append("-" * d + "1")
         progs.append("!" * d + "ja")
         progs.append("als ja { " * min(d, 400) + "1" + " }" * min(d, 400))
+    # WHERE THE CODE LIES must not matter: the same construct after n padding statements, for every n, so that its jump targets,
+    # function entries and return addresses sweep every byte offset (both parities) of the first two KiB — a sanity check,
+    # placeholder or table keyed on an absolute offset that exists in one build profile only (debug assertions, overflow checks)
+    # makes one of these differ between profiles or from the model
+    top = 1100 if tier == "quick" else 9000
+    for n in range(0, top):
+        pad = "ja;" * n
+        progs.append(pad + "als ja { 7 } anders { 8 }")
+        if n % 3 == 0:
+            progs.append(pad + "stel i = 0; zolang i < 2 { i += 1; als i == 1 { volgende }; stop }; i")
+        if n % 3 == 1:
+            progs.append(pad + "functie f(a) { als a { antwoord 1 }; 2 }; f(ja) + f(nee)")
+        if n % 3 == 2:
+            progs.append("-1;" + pad + "als nee { 7 } anders als ja { 9 }")
     # values are rendered (print, string) while other threads render theirs: nested, shared and cyclic arrays, many times per
     # evaluation so that evaluations on different threads overlap
     shapes = ["[[1, 2], [3, 4], [5, [6, 7]]]", "[[[[1]]], [[2]], [3]]", "[\"a\", [1.5, [ja, [nee]]]]", "[[], [[]], [[], [[]]]]"]
